@@ -216,6 +216,9 @@ func (r *readCommand) isInputFromPipe() bool {
 		// Can read from pipe only in serverless mode.
 		return false
 	}
-	fileInfo, _ := os.Stdin.Stat()
+	fileInfo, err := os.Stdin.Stat()
+	if err != nil {
+		return false
+	}
 	return fileInfo.Mode()&os.ModeCharDevice == 0
 }
